@@ -140,13 +140,13 @@ func init() {
 			prefixFilter(c.rule("R13", ruleR13), "R13", "ORDER: comparator-driven descents use one orientation and the full verdict", 10, "R13a:"), c.rule("R32", ruleR32), c.rule("R34", ruleR34), c.rule("R28", ruleR28), c.rule("R36", ruleR36), c.rule("R37", ruleR37))
 	}}
 	properties["C02"] = propDef{run: func(c *Ctx) *PropertyRun {
-		return pr("other", "Decided: (R13a) all 10 comparator-driven descents relate probe and stored key with one orientation (less → left/low, greater → right/high, equal → found); (R13b) keys are never compared with Go operators in comparator-ordered packages; (R20) Min/Max/Floor/Ceiling/Values/Keys delegate to the matching tree operation; (R10) Floor↔Ceiling, Left↔Right, Min↔Max, iterator Next↔Prev, rotations and fix-up arms are mirror images under μ. (R34) the three rotation primitives (red-black rotateLeft/rotateRight with replaceNode expanded, the AVL tree's direction-parameterised rotate in both directions) are replayed over a symbolic heap on every path: the in-order sequence of the rotated subtree is the same before and after and it has exactly one new root. Not decided: that splits/merges/borrows of the B-tree and the successor/predecessor swaps of Remove preserve the in-order sequence; sortedness of Keys() as such; B-tree per-node binary-search bounds; behaviour under a comparator that is not a strict weak order."+notBehaviour,
-			c.rule("R13", ruleR13), rolesFor(c, "C02"), c.rule("R10", ruleR10), c.rule("R11", ruleR11), c.rule("R29", ruleR29), c.rule("R34", ruleR34), c.rule("R28", ruleR28), c.rule("R36", ruleR36), c.rule("R37", ruleR37),
+		return pr("other", "Decided: (R13a) all 10 comparator-driven descents relate probe and stored key with one orientation (less → left/low, greater → right/high, equal → found); (R13b) keys are never compared with Go operators in comparator-ordered packages; (R20) Min/Max/Floor/Ceiling/Values/Keys delegate to the matching tree operation and (R38 unpack) return the found node's own key and value with true, the zero triple with false; (R10) Floor↔Ceiling, Left↔Right, Min↔Max, iterator Next↔Prev, rotations and fix-up arms are mirror images under μ. (R34) the three rotation primitives (red-black rotateLeft/rotateRight with replaceNode expanded, the AVL tree's direction-parameterised rotate in both directions) are replayed over a symbolic heap on every path: the in-order sequence of the rotated subtree is the same before and after and it has exactly one new root. Not decided: that splits/merges/borrows of the B-tree and the successor/predecessor swaps of Remove preserve the in-order sequence; sortedness of Keys() as such; B-tree per-node binary-search bounds; behaviour under a comparator that is not a strict weak order."+notBehaviour,
+			c.rule("R13", ruleR13), rolesFor(c, "C02"), c.rule("R10", ruleR10), c.rule("R11", ruleR11), c.rule("R29", ruleR29), c.rule("R34", ruleR34), c.rule("R28", ruleR28), c.rule("R36", ruleR36), c.rule("R37", ruleR37), prefixFilter(c.rule("R38", ruleR38), "R38", "UNPACK: TreeMap Min/Max/Floor/Ceiling return the found node's key and value with true", 4, "R38:unpack:"),
 			prefixFilter(c.rule("R21b", ruleR21b), "R21b", "B-tree: rebalance is keyed by the node's own key", 1, "R21b:btree.rebalance-key"))
 	}}
 	properties["C03"] = propDef{run: func(c *Ctx) *PropertyRun {
-		return pr("other", "Decided: (R5a) every use of an index parameter of Get/Remove/Insert/Set/Swap on the three lists is dominated by withinRange(index)==true; (R5b) with an out-of-range index nothing is written except the documented append (a call to Add guarded by index == size); (R23w) withinRange ≡ 0 <= i < Size() on all three; (R7) an empty variadic list leaves no nil pointer to dereference; (R12b,c,e) the linked lists' size counters move only with allocate-and-link / guarded unlink; (R23s) Sort = SortFunc(Values(), comparator) then Clear; Add; (R23c) Contains(xs...) exactness; (R20) Append ≡ Add; (R30) the array list's length — its Size() — is replayed symbolically through every method: Add/Insert grow it by exactly len(values), Remove shrinks it by one, growBy(n) by n, resize(l, c) sets l, shrink/Sort/Swap/Set keep it, Clear zeroes it (reallocation thresholds cannot pad or truncate the sequence); (R33) every index-driven pointer walk of the linked lists keeps pos(pointer) = counter + d as a loop invariant (first ↦ 0, last ↦ size-1, next/prev ↦ ±1), walks from the head and from the tail land on the same positions relative to the index, and one pointer lands exactly on it. Not decided: that pointer surgery in the linked Insert/Remove yields the spliced sequence; traversal-direction arithmetic; array-list grow/shrink thresholds; IndexOf results."+notBehaviour,
-			c.rule("R5", ruleR5), c.rule("R7", ruleR7), c.rule("R25", ruleR25), c.rule("R27", ruleR27), c.rule("R30", ruleR30), c.rule("R33", ruleR33),
+		return pr("other", "Decided: (R5a) every use of an index parameter of Get/Remove/Insert/Set/Swap on the three lists is dominated by withinRange(index)==true; (R5b) with an out-of-range index nothing is written except the documented append (a call to Add guarded by index == size); (R23w) withinRange ≡ 0 <= i < Size() on all three; (R7) an empty variadic list leaves no nil pointer to dereference; (R12b,c,e) the linked lists' size counters move only with allocate-and-link / guarded unlink; (R23s) Sort = SortFunc(Values(), comparator) then Clear; Add; (R23c) Contains(xs...) exactness; (R20) Append ≡ Add; (R30) the array list's length — its Size() — is replayed symbolically through every method: Add/Insert grow it by exactly len(values), Remove shrinks it by one, growBy(n) by n, resize(l, c) sets l, shrink/Sort/Swap/Set keep it, Clear zeroes it (reallocation thresholds cannot pad or truncate the sequence); (R33) every index-driven pointer walk of the linked lists keeps pos(pointer) = counter + d as a loop invariant (first ↦ 0, last ↦ size-1, next/prev ↦ ±1), walks from the head and from the tail land on the same positions relative to the index, and one pointer lands exactly on it; (R38) Swap exchanges the two requested positions crosswise with both values read first, Prepend's head insertion runs over the values from the last to the first, the array list's Insert splices (old contents, index, values), IndexOf reports the position it matched. Not decided: that pointer surgery in the linked Insert/Remove yields the spliced sequence; traversal-direction arithmetic; array-list grow/shrink thresholds; IndexOf results."+notBehaviour,
+			c.rule("R5", ruleR5), c.rule("R7", ruleR7), c.rule("R25", ruleR25), c.rule("R27", ruleR27), c.rule("R30", ruleR30), c.rule("R33", ruleR33), prefixFilter(c.rule("R38", ruleR38), "R38", "LISTOPS: Swap exchanges crosswise, Prepend keeps the passed order, Insert splices at the index, IndexOf reports where it found the value", 8, "R38:swap:", "R38:prepend:", "R38:indexof:", "R38:insert:"),
 			prefixFilter(c.rule("R12", ruleR12), "R12", "SIZE: linked-list counters", 6, "R12b:lists/", "R12c:lists/", "R12e:lists/"),
 			prefixFilter(c.rule("R23", ruleR23), "R23", "LISTS: Contains, Sort, withinRange of the three lists", 9, "R23c:lists/", "R23s:lists/", "R23w:lists/"),
 			rolesFor(c, "C03"))
